@@ -33,9 +33,11 @@ import SqlLineage.Model.Qualify
 import SqlLineage.Model.Stmt
 import SqlLineage.Model.Assemble
 import SqlLineage.Spec.Tables
+import SqlLineage.Proofs.FlatLemmas
+import SqlLineage.Proofs.WriteColsLemmas
 
 namespace SqlLineage.Props.C14
-open SqlLineage Ast Walk Holder Qualify
+open SqlLineage Ast Walk Holder Qualify Flat Graph
 
 /-- a plain, stable schema name: not empty, unchanged by `escape_identifier_name` -/
 structure Plain (S : String) : Prop where
@@ -370,6 +372,458 @@ theorem walk_default_eq_qualify_partial (env : Env) (S : String) (h : Plain S) (
     | noop _ _ => simp only [qualifyStmt]
     | unsupported _ => simp only [qualifyStmt]
 
+/-! ### flat statements: the walk under default `S` = the walk of the qualified statement, as GRAPHS -/
+
+mutual
+private theorem plain_noSubq : ∀ e, plain e = true → hasSubq e = false
+  | .col _ _, _ => by simp [hasSubq]
+  | .star _, _ => by simp [hasSubq]
+  | .lit _, _ => by simp [hasSubq]
+  | .func _ _ args none, h => by
+    have h1 : plainL args = true := by simpa [plain] using h
+    simp [hasSubq, plainL_noSubq args h1]
+  | .func _ _ args (some (.mk p o)), h => by
+    have h1 : plainL args = true ∧ plainL p = true ∧ plainL o = true := by simpa [plain, Bool.and_eq_true] using h
+    simp [hasSubq, plainL_noSubq args h1.1, plainL_noSubq p h1.2.1, plainL_noSubq o h1.2.2]
+  | .cast e _, h => by
+    have h1 : plain e = true := by simpa [plain] using h
+    simp [hasSubq, plain_noSubq e h1]
+  | .case _ _, h => by simp [plain] at h
+  | .bin _ a b, h => by
+    have h1 : plain a = true ∧ plain b = true := by simpa [plain, Bool.and_eq_true] using h
+    simp [hasSubq, plain_noSubq a h1.1, plain_noSubq b h1.2]
+  | .paren e, h => by
+    have h1 : plain e = true := by simpa [plain] using h
+    simp [hasSubq, plain_noSubq e h1]
+  | .subq _, h => by simp [plain] at h
+  | .inSubq _ _ _, h => by simp [plain] at h
+  | .exist _ _, h => by simp [plain] at h
+private theorem plainL_noSubq : ∀ es, plainL es = true → hasSubqL es = false
+  | [], _ => by simp [hasSubqL]
+  | e :: r, h => by
+    have h1 : plain e = true ∧ plainL r = true := by simpa [plainL, Bool.and_eq_true] using h
+    simp [hasSubqL, plain_noSubq e h1.1, plainL_noSubq r h1.2]
+end
+
+mutual
+/-- qualification does not touch an expression without subquery -/
+private theorem qExpr_noSubq (S : String) (cte : List String) : ∀ e, hasSubq e = false → qExpr S cte e = e
+  | .col _ _, _ => by simp [qExpr]
+  | .star _, _ => by simp [qExpr]
+  | .lit _, _ => by simp [qExpr]
+  | .func _ _ args none, h => by
+    have h1 : hasSubqL args = false := by simpa [hasSubq] using h
+    simp [qExpr, qOver, qExprs_noSubq S cte args h1]
+  | .func _ _ args (some (.mk p o)), h => by
+    have h1 : hasSubqL args = false ∧ hasSubqL p = false ∧ hasSubqL o = false := by
+      simpa [hasSubq, Bool.or_eq_false_iff] using h
+    simp [qExpr, qOver, qExprs_noSubq S cte args h1.1, qExprs_noSubq S cte p h1.2.1, qExprs_noSubq S cte o h1.2.2]
+  | .cast e _, h => by
+    have h1 : hasSubq e = false := by simpa [hasSubq] using h
+    simp [qExpr, qExpr_noSubq S cte e h1]
+  | .case ws none, h => by
+    have h1 : hasSubqW ws = false := by simpa [hasSubq] using h
+    simp [qExpr, qOpt, qWhens_noSubq S cte ws h1]
+  | .case ws (some e), h => by
+    have h1 : hasSubqW ws = false ∧ hasSubq e = false := by simpa [hasSubq, Bool.or_eq_false_iff] using h
+    simp [qExpr, qOpt, qWhens_noSubq S cte ws h1.1, qExpr_noSubq S cte e h1.2]
+  | .bin _ a b, h => by
+    have h1 : hasSubq a = false ∧ hasSubq b = false := by simpa [hasSubq, Bool.or_eq_false_iff] using h
+    simp [qExpr, qExpr_noSubq S cte a h1.1, qExpr_noSubq S cte b h1.2]
+  | .paren e, h => by
+    have h1 : hasSubq e = false := by simpa [hasSubq] using h
+    simp [qExpr, qExpr_noSubq S cte e h1]
+  | .subq _, h => by simp [hasSubq] at h
+  | .inSubq _ _ _, h => by simp [hasSubq] at h
+  | .exist _ _, h => by simp [hasSubq] at h
+private theorem qExprs_noSubq (S : String) (cte : List String) : ∀ es, hasSubqL es = false → qExprs S cte es = es
+  | [], _ => by simp [qExprs]
+  | e :: r, h => by
+    have h1 : hasSubq e = false ∧ hasSubqL r = false := by simpa [hasSubqL, Bool.or_eq_false_iff] using h
+    simp [qExprs, qExpr_noSubq S cte e h1.1, qExprs_noSubq S cte r h1.2]
+private theorem qWhens_noSubq (S : String) (cte : List String) : ∀ ws, hasSubqW ws = false → qWhens S cte ws = ws
+  | [], _ => by simp [qWhens]
+  | .mk c r :: rest, h => by
+    have h1 : (hasSubq c = false ∧ hasSubq r = false) ∧ hasSubqW rest = false := by
+      simpa [hasSubqW, Bool.or_eq_false_iff] using h
+    simp [qWhens, qExpr_noSubq S cte c h1.1.1, qExpr_noSubq S cte r h1.1.2, qWhens_noSubq S cte rest h1.2]
+end
+
+private theorem flatItem_noSubq : ∀ it : Item, flatItem it = true → (match it with | .mk e _ _ => hasSubq e = false)
+  | .mk (.func n d args over) _ _, h => plain_noSubq _ (by simpa [flatItem] using h)
+  | .mk (.cast e t) _ _, h => by
+    have : plain e = true := by simpa [flatItem] using h
+    simp [hasSubq, plain_noSubq e this]
+  | .mk (.col _ _) _ _, _ => by simp [hasSubq]
+  | .mk (.star _) _ _, _ => by simp [hasSubq]
+  | .mk (.lit _) _ _, _ => by simp [hasSubq]
+  | .mk (.case ws els) _ _, h => by simpa [flatItem] using h
+  | .mk (.bin _ a b) _ _, h => by simpa [flatItem] using h
+  | .mk (.paren e) _ _, h => by simpa [flatItem] using h
+  | .mk (.subq _) _ _, h => by simp [flatItem, hasSubq] at h
+  | .mk (.inSubq _ _ _) _ _, h => by simp [flatItem, hasSubq] at h
+  | .mk (.exist _ _) _ _, h => by simp [flatItem, hasSubq] at h
+
+private theorem qItems_flat (S : String) (cte : List String) : ∀ its : List Item, its.all flatItem = true → qItems S cte its = its
+  | [], _ => by simp [qItems]
+  | .mk e a k :: r, h => by
+    have h1 : flatItem (.mk e a k) = true ∧ r.all flatItem = true := by simpa [List.all_cons, Bool.and_eq_true] using h
+    have he : hasSubq e = false := flatItem_noSubq (.mk e a k) h1.1
+    simp [qItems, qExpr_noSubq S cte e he, qItems_flat S cte r h1.2]
+
+mutual
+private theorem cdExpr_plain (env : Env) (g : LGraph) : ∀ e, plain e = true → cdExpr env g e = []
+  | .col _ _, _ => by simp [cdExpr]
+  | .star _, _ => by simp [cdExpr]
+  | .lit _, _ => by simp [cdExpr]
+  | .func _ _ args none, h => by
+    have h1 : plainL args = true := by simpa [plain] using h
+    simp [cdExpr, cdExprs_plain env g args h1]
+  | .func _ _ args (some (.mk p o)), h => by
+    have h1 : plainL args = true ∧ plainL p = true ∧ plainL o = true := by simpa [plain, Bool.and_eq_true] using h
+    simp [cdExpr, cdExprs_plain env g args h1.1, cdExprs_plain env g p h1.2.1, cdExprs_plain env g o h1.2.2]
+  | .cast e _, h => by
+    have h1 : plain e = true := by simpa [plain] using h
+    simp [cdExpr, cdExpr_plain env g e h1]
+  | .case _ _, h => by simp [plain] at h
+  | .bin _ a b, h => by
+    have h1 : plain a = true ∧ plain b = true := by simpa [plain, Bool.and_eq_true] using h
+    simp [cdExpr, cdExpr_plain env g a h1.1, cdExpr_plain env g b h1.2]
+  | .paren e, h => by
+    have h1 : plain e = true := by simpa [plain] using h
+    simp [cdExpr, cdExpr_plain env g e h1]
+  | .subq _, h => by simp [plain] at h
+  | .inSubq _ _ _, h => by simp [plain] at h
+  | .exist _ _, h => by simp [plain] at h
+private theorem cdExprs_plain (env : Env) (g : LGraph) : ∀ es, plainL es = true → cdExprs env g es = []
+  | [], _ => by simp [cdExprs]
+  | e :: r, h => by
+    have h1 : plain e = true ∧ plainL r = true := by simpa [plainL, Bool.and_eq_true] using h
+    simp [cdExprs, cdExpr_plain env g e h1.1, cdExprs_plain env g r h1.2]
+end
+
+/-- a table reference of the FROM clause, no CTE in sight: default `S` = qualified -/
+private theorem datasetOfElem_q (env : Env) (S : String) (h : Plain S) (g : LGraph) (hc : cteObjs g = [])
+    (parts : List String) (a : Option String) (k : Bool) :
+    datasetOfElem { env with cfgDefault := S } g (.table parts a k) =
+      datasetOfElem { env with cfgDefault := "" } g (qElem S [] (.table parts a k)) := by
+  have hq : qRef S [] parts = qName S parts := by
+    cases parts with
+    | nil => rfl
+    | cons x r =>
+      cases r with
+      | nil => simp [qRef, qName, isBare]
+      | cons y r' => rfl
+  have hlen : ∀ n, qName S parts ≠ [n] := by
+    intro n
+    unfold qName
+    split
+    · simp
+    · rename_i hb
+      intro e
+      rw [e] at hb
+      simp [isBare] at hb
+  have hR : datasetOfElem { env with cfgDefault := "" } g (.table (qName S parts) a k) =
+      [mkTable { env with cfgDefault := "" } (qName S parts) a] := by
+    generalize hqp : qName S parts = qp at hlen
+    cases qp with
+    | nil => rfl
+    | cons x r =>
+      cases r with
+      | nil => exact absurd rfl (hlen x)
+      | cons y r' => rfl
+  have hL : datasetOfElem { env with cfgDefault := S } g (.table parts a k) = [mkTable { env with cfgDefault := S } parts a] := by
+    cases parts with
+    | nil => rfl
+    | cons x r =>
+      cases r with
+      | nil => simp [datasetOfElem, hc]
+      | cons y r' => rfl
+  simp only [qElem, hq]
+  rw [hL, hR, mkTable_qName env S h]
+
+private theorem cdJoins_q (env : Env) (S : String) (h : Plain S) (g : LGraph) (hc : cteObjs g = []) :
+    ∀ js : List Join, js.all flatJoin = true →
+      cdJoins { env with cfgDefault := S } g js = cdJoins { env with cfgDefault := "" } g (qJoins S [] js) ∧
+      (qJoins S [] js).all flatJoin = true
+  | [], _ => by simp [cdJoins, qJoins]
+  | .mk kd e on us :: r, hj => by
+    have h1 : flatJoin (.mk kd e on us) = true ∧ r.all flatJoin = true := by simpa [List.all_cons, Bool.and_eq_true] using hj
+    obtain ⟨ih1, ih2⟩ := cdJoins_q env S h g hc r h1.2
+    cases e with
+    | derived q a ak => simp [flatJoin, flatElem] at h1
+    | table parts a ak =>
+      have hd := datasetOfElem_q env S h g hc parts a ak
+      cases on with
+      | none =>
+        refine ⟨?_, ?_⟩
+        · simp only [cdJoins, qJoins, qOpt, qElem] at hd ⊢
+          rw [hd, ih1]; simp [cdElem]
+        · simp [qJoins, qElem, qOpt, flatJoin, flatElem, flatOn, ih2]
+      | some c =>
+        have hp : plain c = true := by simpa [flatJoin, flatElem, flatOn] using h1.1
+        have hcq : qExpr S [] c = c := qExpr_noSubq S [] c (plain_noSubq c hp)
+        refine ⟨?_, ?_⟩
+        · simp only [cdJoins, qJoins, qOpt, qElem, hcq] at hd ⊢
+          rw [hd, ih1, cdExpr_plain _ g c hp, cdExpr_plain _ g c hp]; simp [cdElem]
+        · simp [qJoins, qElem, qOpt, hcq, flatJoin, flatElem, flatOn, hp, ih2]
+
+/-- the datasets one from‑expression contributes (its base element, then the elements of its join clauses) -/
+private def feTables (env : Env) (g : LGraph) : FromExpr → List DObj
+  | .mk base js => datasetOfElem env g base ++ (if js.isEmpty then [] else cdFromExpr env g (.mk base js))
+
+private theorem tablesOfFrom_eq (env : Env) (g : LGraph) (frm : List FromExpr) :
+    tablesOfFrom env g frm = frm.flatMap (feTables env g) := by
+  unfold tablesOfFrom
+  split
+  · rfl
+  · simp [feTables]
+  · congr 1
+
+private theorem feTables_q (env : Env) (S : String) (h : Plain S) (g : LGraph) (hc : cteObjs g = []) (fe : FromExpr)
+    (hf : flatFromExpr fe = true) :
+    feTables { env with cfgDefault := S } g fe = feTables { env with cfgDefault := "" } g (qFromExpr S [] fe) ∧
+    flatFromExpr (qFromExpr S [] fe) = true := by
+  cases fe with
+  | mk base js =>
+    cases base with
+    | derived q a ak => simp [flatFromExpr, flatElem] at hf
+    | table parts a ak =>
+      have hj : js.all flatJoin = true := by simpa [flatFromExpr, flatElem] using hf
+      obtain ⟨c1, c2⟩ := cdJoins_q env S h g hc js hj
+      have hd := datasetOfElem_q env S h g hc parts a ak
+      have hemp : (qJoins S [] js).isEmpty = js.isEmpty := by cases js with
+        | nil => rfl
+        | cons j r => cases j; rfl
+      refine ⟨?_, ?_⟩
+      · simp only [feTables, qFromExpr, qElem, hemp] at hd ⊢
+        rw [hd]
+        simp only [cdFromExpr, cdElem, List.nil_append, c1]
+      · simp [qFromExpr, qElem, flatFromExpr, flatElem, c2]
+
+private theorem tablesOfFrom_q (env : Env) (S : String) (h : Plain S) (g : LGraph) (hc : cteObjs g = []) :
+    ∀ frm : List FromExpr, frm.all flatFromExpr = true →
+      tablesOfFrom { env with cfgDefault := S } g frm = tablesOfFrom { env with cfgDefault := "" } g (qFromExprs S [] frm) ∧
+      (qFromExprs S [] frm).all flatFromExpr = true := by
+  intro frm hf
+  rw [tablesOfFrom_eq, tablesOfFrom_eq]
+  induction frm with
+  | nil => simp [qFromExprs]
+  | cons fe r ih =>
+    have h1 : flatFromExpr fe = true ∧ r.all flatFromExpr = true := by simpa [List.all_cons, Bool.and_eq_true] using hf
+    obtain ⟨a1, a2⟩ := feTables_q env S h g hc fe h1.1
+    obtain ⟨b1, b2⟩ := ih h1.2
+    refine ⟨?_, ?_⟩
+    · simp only [qFromExprs, List.flatMap_cons]
+      rw [a1, b1]
+    · simp [qFromExprs, a2, b2]
+
+/-- `finishBranches` of one flat block -/
+private theorem finishBranches_q (env : Env) (S : String) (h : Plain S) (g : LGraph) (hc : cteObjs g = [])
+    (its : List Item) (frm : List FromExpr) (hf : frm.all flatFromExpr = true) :
+    finishBranches { env with cfgDefault := S } g [(its, frm)] =
+      finishBranches { env with cfgDefault := "" } g [(its, qFromExprs S [] frm)] := by
+  have hc1 : ∀ it : Item, colSpecOf { env with cfgDefault := S } it = colSpecOf { env with cfgDefault := "" } it := by
+    intro it; cases it; rfl
+  have hcs : its.map (colSpecOf { env with cfgDefault := S }) = its.map (colSpecOf { env with cfgDefault := "" }) :=
+    List.map_congr_left (fun it _ => hc1 it)
+  simp only [finishBranches, List.zipIdx_cons, List.zipIdx_nil, List.foldl_cons, List.foldl_nil, List.nil_append]
+  rw [(tablesOfFrom_q env S h g hc frm hf).1, hcs]
+
+/-- the select extractor on a flat block whose initial holder has no CTE -/
+private theorem exQuery_q (env : Env) (S : String) (h : Plain S) (ctx : Ctx) (hc : cteObjs (initHolder ctx) = [])
+    (q : Query) (hq : flatSelect q = true) :
+    exQuery { env with cfgDefault := S } ctx q = exQuery { env with cfgDefault := "" } ctx (qQuery S [] q) := by
+  cases q with
+  | setop _ _ => simp [flatSelect] at hq
+  | withq _ _ => simp [flatSelect] at hq
+  | select d its frm wh grp hav =>
+    have h1 : (its.all flatItem = true ∧ frm.all flatFromExpr = true) ∧ flatWhere wh = true := by
+      simpa [flatSelect, Bool.and_eq_true] using hq
+    have hits : qItems S [] its = its := qItems_flat S [] its h1.1.1
+    have hwh : qOpt S [] wh = wh := by
+      cases wh with
+      | none => rfl
+      | some e =>
+        have : hasSubq e = false := by simpa [flatWhere] using h1.2
+        simp [qOpt, qExpr_noSubq S [] e this]
+    have hq' : flatSelect (.select d its (qFromExprs S [] frm) wh (qExprs S [] grp) (qOpt S [] hav)) = true := by
+      simp [flatSelect, h1.1.1, (tablesOfFrom_q env S h (initHolder ctx) hc frm h1.1.2).2, h1.2]
+    simp only [qQuery, hits, hwh]
+    rw [exQuery_flat _ ctx d its frm wh grp hav hq, exQuery_flat _ ctx d its _ wh _ _ hq']
+    exact finishBranches_q env S h _ hc its frm h1.1.2
+
+/-! #### the initial holder of the select extractor carries no CTE when the target holder has none -/
+
+private theorem tagSet_cte_addWriteO (g : LGraph) (o : DObj) : tagSet (addWriteO g o) .cte = tagSet g .cte := by
+  have htag : ∀ m, (addWriteO g o).tag m .cte = g.tag m .cte := by
+    intro m
+    simp [addWriteO, addWrite, tag_setTag]
+  have hnodes : (addWriteO g o).nodes = if Node.ds o.d ∈ g.nodes then g.nodes else g.nodes ++ [Node.ds o.d] := by
+    simp only [addWriteO, addWrite, setTag]
+    exact nodes_addNode g _ _
+  simp only [tagSet, hnodes, htag]
+  split
+  · rfl
+  · rename_i hn
+    rw [List.filter_append]
+    have : [Node.ds o.d].filter (fun n => g.tag n .cte == some true) = [] := by
+      simp [tag_of_not_mem g _ .cte hn]
+    rw [this, List.append_nil]
+
+private theorem cteObjs_nil_of {g : LGraph} (h : tagSet g .cte = []) : cteObjs g = [] := by
+  simp [cteObjs, objsOf, h]
+
+private theorem initHolder_noCte (ctx : Ctx) (hc : ctx.cte = []) : cteObjs (initHolder ctx) = [] := by
+  apply cteObjs_nil_of
+  have hw : ∀ (l : List DObj) (g : LGraph), tagSet (l.foldl addWriteO g) .cte = tagSet g .cte := by
+    intro l
+    induction l with
+    | nil => intro g; rfl
+    | cons o r ih => intro g; simp only [List.foldl_cons]; rw [ih, tagSet_cte_addWriteO]
+  unfold initHolder
+  simp only [hc, List.foldl_nil]
+  split
+  · rw [hw]; rfl
+  · rw [tagSet_eq_of_frame (TargetFrame.addWriteColumns_frame _ _), hw]; rfl
+
+/-- the fragment of `walk_flat_default_eq_qualify_partial`: every statement without a query; SELECT, INSERT … SELECT,
+    CREATE TABLE AS and CREATE VIEW over one flat SELECT block (`Flat.flatSelect`, see `Proofs/FlatLemmas.lean`) -/
+def frag14 : Stmt → Bool
+  | .query q _ => flatSelect q
+  | .insert _ _ _ _ q _ => flatSelect q
+  | .ctas _ _ _ q _ => flatSelect q
+  | .createView _ _ _ q => flatSelect q
+  | _ => true
+
+/-- the create/insert extractor on a flat block: the target holder `G` is the same on both sides (`mkTable_qName`; the
+    provider is asked about the same table), it carries no CTE, and the select extractor agrees by `exQuery_q` -/
+private theorem exWriteQuery_q (env : Env) (S : String) (h : Plain S) (isInsert : Bool) (tgt : List String)
+    (cols : Option (List String)) (q : Query) (hq : flatSelect q = true) :
+    exWriteQuery { env with cfgDefault := S } isInsert tgt cols q =
+      exWriteQuery { env with cfgDefault := "" } isInsert (qName S tgt) cols (qQuery S [] q) := by
+  have hG : ∃ G : LGraph, tagSet G .cte = [] ∧
+      (∀ q', exWriteQuery { env with cfgDefault := S } isInsert tgt cols q' =
+        (match exQuery { env with cfgDefault := S } (ctxOf G) q' with | .ok hh => .ok (G.compose hh) | .error e => .error e)) ∧
+      (∀ q', exWriteQuery { env with cfgDefault := "" } isInsert (qName S tgt) cols q' =
+        (match exQuery { env with cfgDefault := "" } (ctxOf G) q' with | .ok hh => .ok (G.compose hh) | .error e => .error e)) := by
+    have hcte0 : tagSet (addWriteO Graph.empty (mkTable { env with cfgDefault := S } tgt none)) .cte = [] := by
+      rw [tagSet_cte_addWriteO]; rfl
+    first
+      | -- `Model/Stmt.lean` as it is
+        (refine ⟨(match cols with
+            | some cs => addWriteColumns
+                (if isInsert && env.prov.truthy then addWriteColumns (addWriteO Graph.empty (mkTable { env with cfgDefault := S } tgt none))
+                  (provColumns env.prov (mkTable { env with cfgDefault := S } tgt none).d (mkTable { env with cfgDefault := S } tgt none).printed)
+                 else addWriteO Graph.empty (mkTable { env with cfgDefault := S } tgt none)) (cs.map listColumn)
+            | none =>
+                (if isInsert && env.prov.truthy then addWriteColumns (addWriteO Graph.empty (mkTable { env with cfgDefault := S } tgt none))
+                  (provColumns env.prov (mkTable { env with cfgDefault := S } tgt none).d (mkTable { env with cfgDefault := S } tgt none).printed)
+                 else addWriteO Graph.empty (mkTable { env with cfgDefault := S } tgt none))), ?_, fun _ => rfl, ?_⟩
+         · have f1 : Frame (addWriteO Graph.empty (mkTable { env with cfgDefault := S } tgt none))
+               (if isInsert && env.prov.truthy then addWriteColumns (addWriteO Graph.empty (mkTable { env with cfgDefault := S } tgt none))
+                  (provColumns env.prov (mkTable { env with cfgDefault := S } tgt none).d (mkTable { env with cfgDefault := S } tgt none).printed)
+                 else addWriteO Graph.empty (mkTable { env with cfgDefault := S } tgt none)) := by
+             split
+             · exact TargetFrame.addWriteColumns_frame _ _
+             · exact Frame.refl _
+           cases cols with
+           | none => rw [tagSet_eq_of_frame f1]; exact hcte0
+           | some cs =>
+             rw [tagSet_eq_of_frame (Frame.trans f1 (TargetFrame.addWriteColumns_frame _ _))]; exact hcte0
+         · intro q'
+           rw [mkTable_qName env S h tgt none]
+           rfl)
+      | -- after `patches/Stmt-D8.patch`
+        (have he : (addWriteO (Graph.empty : LGraph) (mkTable { env with cfgDefault := S } tgt none)).edges = [] := by
+           simp [addWriteO, addWrite]
+         refine ⟨writeTargetHolder { env with cfgDefault := S } isInsert tgt cols, ?_, fun _ => rfl, ?_⟩
+         · cases cols with
+           | none =>
+             have fr : Frame (addWriteO Graph.empty (mkTable { env with cfgDefault := S } tgt none))
+                 (writeTargetHolder { env with cfgDefault := S } isInsert tgt none) :=
+               TargetFrame.target_frame (α := List String) _ he (isInsert && env.prov.truthy)
+                 (provColumns env.prov (mkTable { env with cfgDefault := S } tgt none).d
+                   (mkTable { env with cfgDefault := S } tgt none).printed) (fun cs => cs.map listColumn) none
+             rw [tagSet_eq_of_frame fr]; exact hcte0
+           | some cs =>
+             have fr : Frame (addWriteO Graph.empty (mkTable { env with cfgDefault := S } tgt none))
+                 (writeTargetHolder { env with cfgDefault := S } isInsert tgt (some cs)) :=
+               TargetFrame.target_frame (α := List String) _ he (isInsert && env.prov.truthy)
+                 (provColumns env.prov (mkTable { env with cfgDefault := S } tgt none).d
+                   (mkTable { env with cfgDefault := S } tgt none).printed) (fun l => l.map listColumn) (some cs)
+             rw [tagSet_eq_of_frame fr]; exact hcte0
+         · intro q'
+           have : writeTargetHolder { env with cfgDefault := S } isInsert tgt cols =
+               writeTargetHolder { env with cfgDefault := "" } isInsert (qName S tgt) cols := by
+             simp only [writeTargetHolder, ← mkTable_qName env S h]
+           rw [this]
+           rfl)
+  obtain ⟨G, hcte, h1, h2⟩ := hG
+  rw [h1 q, h2 (qQuery S [] q),
+    exQuery_q env S h (ctxOf G) (initHolder_noCte _ (cteObjs_nil_of hcte)) q hq]
+
+/-- `walk_default_eq_qualify`, part 2: for every statement of `frag14` — in particular SELECT / INSERT … SELECT / CREATE TABLE AS /
+    CREATE VIEW over one flat SELECT block — the statement holder GRAPH under default `S` equals the holder graph of the
+    qualified statement under no default: tables, aliases, columns, lineage edges, order; any provider, any
+    `importDefault`.
+
+    Missing for the full statement (`∀ s`, table level): statements with nested queries.  A subquery is identified by its
+    rendered text (`SubQuery.__eq__` by `query_raw`), and qualification changes that text, so the two holders are no longer
+    equal but only equal up to a renaming of subquery nodes; the lift needs that equivalence carried through the
+    30‑function mutual recursion of `Model/Walk.lean` (no equation lemmas), and excludes the D5 class where the walk's
+    unscoped CTE lookup and the standard scoping of `qualifyStmt` disagree.  Checked differentially by `harness/c14.py`
+    (model under default `S` vs model of the qualified statement, and both against the implementation). -/
+theorem walk_flat_default_eq_qualify_partial (env : Env) (S : String) (h : Plain S) (silent : Bool) (s : Stmt)
+    (hs : frag14 s = true) :
+    analyze { env with cfgDefault := S } silent s = analyze { env with cfgDefault := "" } silent (qualifyStmt S s) := by
+  cases s with
+  | query q b =>
+    have hq : flatSelect q = true := by simpa [frag14] using hs
+    have hT := stmtType_qualify S (.query q b)
+    unfold analyze
+    rw [hT]
+    cases dispatch (stmtType (.query q b)) with
+    | none => rfl
+    | some c =>
+      simp only [qualifyStmt]
+      exact exQuery_q env S h {} (initHolder_noCte {} rfl) q hq
+  | insert k tk tgt cols q b =>
+    have hq : flatSelect q = true := by simpa [frag14] using hs
+    have hT := stmtType_qualify S (.insert k tk tgt cols q b)
+    unfold analyze
+    rw [hT]
+    cases dispatch (stmtType (.insert k tk tgt cols q b)) with
+    | none => rfl
+    | some c => simp only [qualifyStmt]; exact exWriteQuery_q env S h true tgt cols q hq
+  | ctas tgt orr ine q b =>
+    have hq : flatSelect q = true := by simpa [frag14] using hs
+    have hT := stmtType_qualify S (.ctas tgt orr ine q b)
+    unfold analyze
+    rw [hT]
+    cases dispatch (stmtType (.ctas tgt orr ine q b)) with
+    | none => rfl
+    | some c => simp only [qualifyStmt]; exact exWriteQuery_q env S h false tgt none q hq
+  | createView tgt orr cols q =>
+    have hq : flatSelect q = true := by simpa [frag14] using hs
+    have hT := stmtType_qualify S (.createView tgt orr cols q)
+    unfold analyze
+    rw [hT]
+    cases dispatch (stmtType (.createView tgt orr cols q)) with
+    | none => rfl
+    | some c => simp only [qualifyStmt]; exact exWriteQuery_q env S h false tgt cols q hq
+  | insertValues _ _ _ => exact walk_default_eq_qualify_partial env S h silent _ rfl
+  | createTable _ _ _ => exact walk_default_eq_qualify_partial env S h silent _ rfl
+  | createTableLike _ _ => exact walk_default_eq_qualify_partial env S h silent _ rfl
+  | update _ _ _ _ _ => exact walk_default_eq_qualify_partial env S h silent _ rfl
+  | merge _ _ _ _ _ _ => exact walk_default_eq_qualify_partial env S h silent _ rfl
+  | copy _ _ => exact walk_default_eq_qualify_partial env S h silent _ rfl
+  | drop _ _ _ => exact walk_default_eq_qualify_partial env S h silent _ rfl
+  | alterRename _ _ => exact walk_default_eq_qualify_partial env S h silent _ rfl
+  | renameTable _ => exact walk_default_eq_qualify_partial env S h silent _ rfl
+  | noop _ _ => exact walk_default_eq_qualify_partial env S h silent _ rfl
+  | unsupported _ => exact walk_default_eq_qualify_partial env S h silent _ rfl
+
 /-- D17 (unrepaired code, scoped override): `importDefault` is still the import‑time value, so the owner of `zz.a` in
     `select zz.a from t1` under default `sx` is `<default>.zz`, not the `sx.zz` that the qualified spelling denotes -/
 theorem dev_D17 :
@@ -429,5 +883,23 @@ example : hasQuery (.createTableLike ["t1"] ["s2", "t2"]) = false ∧
     (analyze { cfgDefault := "sx" } false (.createTableLike ["t1"] ["s2", "t2"])).toOption.map
       (fun g => (Assemble.stmtRead g, Assemble.stmtWrite g)) =
       some ([.ds (.table "s2" "t2")], [.ds (.table "sx" "t1")]) := by decide +kernel
+
+/-- `insert into tgt select a, max(x.b) as m, case when a > 1 then zz.c else 0 end as k from t1 x join s2.t2 on x.k = t2.k
+     where a > 1` is inside `frag14` (a CASE as select item is fine), and its holder is not trivial: two sources, a target,
+    column edges incl. the unknown‑qualifier fallback -/
+def exFlat : Stmt :=
+  .insert .insertInto false ["tgt"] none
+    (.select false
+      [.mk (.col [] "a") none false, .mk (.func "max" false [.col ["x"] "b"] none) (some "m") true,
+       .mk (.case [.mk (.bin ">" (.col [] "a") (.lit "1")) (.col ["zz"] "c")] (some (.lit "0"))) (some "k") true]
+      [.mk (.table ["t1"] (some "x") false)
+        [.mk "join" (.table ["s2", "t2"] none false) (some (.bin "=" (.col ["x"] "k") (.col ["t2"] "k"))) []]]
+      (some (.bin ">" (.col [] "a") (.lit "1"))) [] none) false
+
+
+example : frag14 exFlat = true ∧
+    (analyze { cfgDefault := "sx", importDefault := "sx" } false exFlat).toOption.map
+      (fun g => (Assemble.stmtRead g, Assemble.stmtWrite g, g.edges.length)) =
+      some ([.ds (.table "sx" "t1"), .ds (.table "s2" "t2")], [.ds (.table "sx" "tgt")], 11) := by decide +kernel
 
 end SqlLineage.Props.C14
